@@ -17,6 +17,19 @@ with the answer of the same call on a *fresh copy* (for `next(g)`: a fresh copy 
 kind of generator is opened and advanced the same number of times).  After the history every
 populated cache level is queried once more and compared with a fresh copy.
 
+Round 4: (a) histories over TWO OR THREE LIVE OBJECTS (`run_multi_history`): each object answers its own cache-populating
+queries, interleaved with the binary comparisons (==, !=, <=, <, >=, >, issubset, issuperset, isdisjoint) and binary operations
+(union / intersection / difference / symmetric difference, | & - ^, with and without retained names) BETWEEN the live
+objects (also an object with itself); the partner objects are related to the first (equal language through another state graph:
+copy / minified / trimmed / completed / relabelled + unreachable state / self product; sub- and superset; complement;
+unrelated), every answer is compared with the same call on fresh copies of the operand(s).  (b) live-object MODES: the
+long-lived DFA / NFA (and every fresh copy) is built either as a default copy or under allow_mutable_automata=True from
+plain containers (plain / aliased / copy_of_plain: harness/dfa_query_lib3.build_live, harness/c20_lib4.build_live_nfa);
+the frozen twin (definition as built) is what the model and the fresh copies start from.  (c) NFA histories on NFAs with
+lambda cycles of length 3–5 entered at different members by different first symbols, reads in bursts; the second NFA
+operand is live too (`OA`: it answers a query itself, `QE`: it is the left operand of ==); after an NFA history
+acceptance of ≤16 short words is asked once more on both live objects.
+
 The NFA half (memo of `_get_lambda_closures`): histories of accepts_input, read_input_stepwise, ==,
 DFA.from_nfa, eliminate_lambda, validate on one NFA object, same fresh-copy oracle, replayed by the
 Lean machine `nstep` (NHISTORY command), memoised closure table compared with a fresh one.
@@ -32,11 +45,15 @@ from __future__ import annotations
 
 import itertools
 import json
+import random
+import time
 
 from automata.fa.dfa import DFA
 
 from harness import gen
+from harness import c20_lib4 as L4
 from harness import dfa_query_lib as L
+from harness import dfa_query_lib3 as Q3
 from harness.common import guarded as case_guard
 from harness.common import Ctx, InfraError, Names, Toks, call, dfa_canon, dfa_plain, enc_dfa, enc_nfa, enc_word, sym_names, toks
 from harness.ops import C14 as S
@@ -48,12 +65,22 @@ RULE = ("cases = (valid DFA, history of ≤30 public calls on one instance, incl
         "callable whose ranking changes between calls; correlated chains: a call starts at the previous answer with "
         "strictness / direction / window / ranking flipped); corpus (mutant killers, written-out successor loops, short-after-long and long-after-short "
         "lengths, shared-key pairs, generators across clear_cache), all histories of length ≤2 (thorough: ≤3) over 18 "
-        "call groups on 20 DFAs, then random histories on shaped random DFAs (≤6 states); evaluations = calls compared "
+        "call groups on 20 DFAs, then random histories on shaped random DFAs (≤6 states); round 4: histories over 2–3 LIVE "
+        "DFAs related by language (equal through another graph / sub- / superset / complement / unrelated): per-object random "
+        "histories interleaved with binary comparisons and Boolean operations between the live objects (all pairs of 14 "
+        "cache-populating call groups × all 9 comparisons on 8 fixed pairs, then random), every answer compared with fresh "
+        "copies of the operands; live objects built as default copies or under allow_mutable_automata=True from plain / "
+        "aliased containers / as a copy of such an object (25–45 % of the random histories, all corpus histories); NFA "
+        "histories: random NFAs, lambda-dense NFAs and NFAs with a lambda cycle of length 3–5 entered at different members "
+        "by different first symbols (all ordered pairs of entry+exit words on 9 fixed ones), reads in bursts, a second live "
+        "NFA operand, same modes; evaluations = calls compared "
         "with a fresh copy; a history is non-trivial when it contains ≥2 cache-touching calls on a DFA with a "
         "non-empty language; distinct = distinct (definition, history)")
 ASSUMPTIONS = [
     "lengths k are naturals (negative lengths index the caches from the end and are history-dependent: finding F18)",
-    "the DFA definition is immutable (C18); the object stays referenced while it is queried",
+    "the DFA definition is immutable (C18); the object stays referenced while it is queried; under allow_mutable_automata=True "
+    "the caller does not touch the containers it handed over, and answers are judged against fresh objects built the same "
+    "way from the definition as built (whether the library changed the containers is only counted: C18's clause)",
     "queries that never touch the caches (==, <=, issubset, isdisjoint, complement, union, …) are opaque in the model; "
     "their history independence is only sampled (compared with a fresh copy), not proved; minify / to_partial are "
     "modelled as far as they touch the instance (the `_get_digraph` memo), the rest of their body is an arbitrary "
@@ -120,6 +147,20 @@ def do_other(x: DFA, op: str, other: DFA):
         return x.issubset(other)
     if op == "issuperset":
         return x.issuperset(other)
+    if op == "ne":
+        return x != other
+    if op in ("intersection", "difference", "symmetric_difference"):
+        return canon_result(getattr(x, op)(other), False)
+    if op in ("intersection_keep", "difference_keep", "symmetric_difference_keep"):
+        return canon_result(getattr(x, op[:-5])(other, retain_names=True, minify=False), True)
+    if op == "op_or":
+        return canon_result(x | other, False)
+    if op == "op_and":
+        return canon_result(x & other, False)
+    if op == "op_sub":
+        return canon_result(x - other, False)
+    if op == "op_xor":
+        return canon_result(x ^ other, False)
     return x.isdisjoint(other)
 
 
@@ -222,9 +263,11 @@ class Runner:
         raise InfraError(f"unknown query {q}")
 
 
-def fresh_answer(d: DFA, other: DFA, q: dict, kinds, nexts):
-    """The same call on a fresh copy (kept referenced while it runs)."""
-    c = d.copy()
+def fresh_answer(d: DFA, other: DFA, q: dict, kinds, nexts, mode: str = "frozen"):
+    """The same call on a fresh copy (kept referenced while it runs).  Under a mutable-option mode the fresh copy is
+    built the way the live object was, from new plain copies of the definition of the frozen twin `d`."""
+    keep = []
+    c = d.copy() if mode == "frozen" else Q3.build_live(d, mode, keep)
     if q["q"] in ("WO", "IO", "SO"):
         return None
     if q["q"] == "NX":
@@ -360,14 +403,27 @@ def model_tables(ctx: Ctx, enc: str, k: int):
 
 
 # ------------------------------------------------------------------ one history
-def describe(d: DFA, other: DFA, hist):
-    return dict(automaton=repr(d), other=repr(other), history=[{k: v for k, v in q.items()} for q in hist])
+def describe(d: DFA, other: DFA, hist, mode: str = "frozen"):
+    out = dict(automaton=repr(d), other=repr(other), history=[{k: v for k, v in q.items()} for q in hist])
+    if mode != "frozen":
+        out["mode"] = mode      # the live object (and every fresh copy) is built by dfa_query_lib3.build_live(·, mode)
+    return out
 
 
 @case_guard
-def run_history(ctx: Ctx, d: DFA, other: DFA, hist, origin: str, kmax: int):
+def run_history(ctx: Ctx, d: DFA, other: DFA, hist, origin: str, kmax: int, mode: str = "frozen"):
+    """`mode` (round 4): how the long-lived object is built — "frozen" (a default copy) or one of the
+    allow_mutable_automata=True modes of dfa_query_lib3.build_live (plain / aliased containers, copy of such an
+    object).  `d` is the frozen twin: the definition AS BUILT, which the model and the fresh copies start from."""
+    with Q3.mutable_option(mode):
+        return _run_history(ctx, d, other, hist, origin, kmax, mode)
+
+
+def _run_history(ctx: Ctx, d: DFA, other: DFA, hist, origin: str, kmax: int, mode: str):
     enc, st, sy = enc_dfa(d)
-    inst = d.copy()
+    keep = []
+    fresh = lambda: d.copy() if mode == "frozen" else Q3.build_live(d, mode, keep)      # noqa: E731
+    inst = fresh()
     R = Runner(inst, other)
     real, snaps, bad = [], [], []
     touching = 0
@@ -384,7 +440,7 @@ def run_history(ctx: Ctx, d: DFA, other: DFA, hist, origin: str, kmax: int):
             hung = True
             ctx.case(None)
             ctx.stat("history_ended_by_a_call_that_did_not_return")
-            f = fresh_answer(d, other, q, R.kinds, R.nexts)
+            f = fresh_answer(d, other, q, R.kinds, R.nexts, mode)
             if f is not None and f != a:
                 bad.append(f"call #{i} {show_q(q)} after {i} earlier calls did not return (time / memory guard); the same "
                            f"call on a fresh copy answers {str(f)[:120]}")
@@ -398,13 +454,13 @@ def run_history(ctx: Ctx, d: DFA, other: DFA, hist, origin: str, kmax: int):
             # networkx graph; whatever was called so far must have left it equal to a fresh one
             # (calling the memoised method again only returns the stored object)
             if fresh_graph is None:
-                fresh_graph = digraph_content(d.copy())
+                fresh_graph = digraph_content(fresh())
             got_graph = digraph_content(inst)
             ctx.stat("digraph_memo:compared_with_fresh")
             if got_graph != fresh_graph:
                 ctx.corr_diff("HISTORY digraph memo content (mutated shared graph object)",
-                              dict(describe(d, other, hist[: i + 1]), index=i), got_graph, fresh_graph)
-        f = fresh_answer(d, other, q, R.kinds, R.nexts)
+                              dict(describe(d, other, hist[: i + 1], mode), index=i), got_graph, fresh_graph)
+        f = fresh_answer(d, other, q, R.kinds, R.nexts, mode)
         ctx.case(None)
         ctx.stat(f"q:{q['q']}")
         if q["q"] == "NX":
@@ -420,24 +476,25 @@ def run_history(ctx: Ctx, d: DFA, other: DFA, hist, origin: str, kmax: int):
     # final sweep: every populated level must still give the fresh answers
     for k in range(0 if hung else len(inst._count_cache)):
         a = call(lambda: inst.count_words_of_length(k))
-        c = d.copy()
+        c = fresh()
         f = call(lambda: c.count_words_of_length(k))
         if a != f:
             bad.append(f"after the history, count_words_of_length({k}) = {a}, fresh copy: {f}")
     for k in range(0 if hung else len(inst._word_cache)):
         a = call(lambda: list(inst.words_of_length(k)))
-        c = d.copy()
+        c = fresh()
         f = call(lambda: list(c.words_of_length(k)))
         if a != f:
             bad.append(f"after the history, words_of_length({k}) = {str(a)[:120]}, fresh copy: {str(f)[:120]}")
     shape_nonempty = bool(inst.final_states)
     ctx.case((enc, json.dumps(hist, sort_keys=True, default=str)) if (touching >= 2 and shape_nonempty) else None)
     ctx.stat(f"origin:{origin}")
+    ctx.stat(f"live_mode:{mode}")
     ctx.stat(f"history_len:{min(len(hist) // 5 * 5, 30)}+")
     if ctx.stats.get(f"origin:{origin}", 0) % 400 == 1:
-        ctx.sample(dict(describe(d, other, hist[:8]), answers=[str(a)[:60] for a in real[:8]]))
+        ctx.sample(dict(describe(d, other, hist[:8], mode), answers=[str(a)[:60] for a in real[:8]]))
     for b in bad:
-        ctx.prop_fail(b, dict(describe(d, other, full_hist), what=b), None)
+        ctx.prop_fail(b, dict(describe(d, other, full_hist, mode), what=b), None)
     if hung:
         inst.clear_cache()
     # ---- model
@@ -446,22 +503,22 @@ def run_history(ctx: Ctx, d: DFA, other: DFA, hist, origin: str, kmax: int):
     mct, mwt = model_tables(ctx, enc, need - 1)
     for i, (q, a, m, (ct, wt, memo)) in enumerate(zip(hist, real, mod, snaps)):
         if not m["same"]:
-            ctx.corr_diff("HISTORY step≠stepPure (model theorem violated at run time)", describe(d, other, hist[: i + 1]), a, m)
+            ctx.corr_diff("HISTORY step≠stepPure (model theorem violated at run time)", describe(d, other, hist[: i + 1], mode), a, m)
         if m["ans"] == ("fuel",):
             ctx.stat("model:outOfFuel")
             continue
         if m["ans"] != ("opaque",) and m["ans"] != a and not bad:
-            ctx.corr_diff("HISTORY answer", dict(describe(d, other, hist[: i + 1]), index=i), a, m["ans"])
+            ctx.corr_diff("HISTORY answer", dict(describe(d, other, hist[: i + 1], mode), index=i), a, m["ans"])
         # CacheInv on the real object: every populated level holds the table of that level
         if len(ct) > len(mct) or len(wt) > len(mwt):
             if not bad:
-                ctx.corr_diff("HISTORY cache longer than any query asked for", dict(describe(d, other, hist[: i + 1]), index=i),
+                ctx.corr_diff("HISTORY cache longer than any query asked for", dict(describe(d, other, hist[: i + 1], mode), index=i),
                               (len(ct), len(wt)), (len(mct), len(mwt)))
             break
         if any(ct[j] != mct[j] for j in range(len(ct))) and not bad:
-            ctx.corr_diff("HISTORY count cache content", dict(describe(d, other, hist[: i + 1]), index=i), ct, mct[: len(ct)])
+            ctx.corr_diff("HISTORY count cache content", dict(describe(d, other, hist[: i + 1], mode), index=i), ct, mct[: len(ct)])
         if any(wt[j] != mwt[j] for j in range(len(wt))) and not bad:
-            ctx.corr_diff("HISTORY word cache content", dict(describe(d, other, hist[: i + 1]), index=i), wt, mwt[: len(wt)])
+            ctx.corr_diff("HISTORY word cache content", dict(describe(d, other, hist[: i + 1], mode), index=i), wt, mwt[: len(wt)])
         if (len(ct), len(wt)) != (m["nc"], m["nw"]):
             ctx.stat("snapshot:cache_length_differs_from_model")
         else:
@@ -500,6 +557,284 @@ def show_q(q: dict) -> str:
         return f"{q['op']}(other)"
     return {"CARD": "cardinality()", "LEN": "len()", "MIN": "minimum_word_length()", "MAX": "maximum_word_length()",
             "EMPTY": "isempty()", "FINITE": "isfinite()", "CLR": "clear_cache()"}[k]
+
+
+# ------------------------------------------------------------------ histories over SEVERAL live objects (round 4)
+BIN_CMP = ["eq", "ne", "le", "ge", "lt", "gt", "issubset", "issuperset", "isdisjoint"]
+BIN_BUILD = ["union", "union_keep", "intersection", "intersection_keep", "difference", "symmetric_difference",
+             "op_or", "op_and", "op_sub", "op_xor"]
+BIN_SHOW = {"eq": "{} == {}", "ne": "{} != {}", "le": "{} <= {}", "ge": "{} >= {}", "lt": "{} < {}", "gt": "{} > {}",
+            "op_or": "{} | {}", "op_and": "{} & {}", "op_sub": "{} - {}", "op_xor": "{} ^ {}"}
+
+
+def show_step(s: dict) -> str:
+    x = f"d{s['on']}"
+    if s["q"] == "BIN":
+        y = f"d{s['arg']}"
+        return BIN_SHOW[s["op"]].format(x, y) if s["op"] in BIN_SHOW else f"{x}.{s['op']}({y})"
+    return f"{x}: {show_q(s)}"
+
+
+def sweep_caches(inst: DFA, fresh, label: str, bad: list):
+    """Every populated cache level of a long-lived object must still give the fresh answers."""
+    for k in range(len(inst._count_cache)):
+        a = call(lambda: inst.count_words_of_length(k))
+        c = fresh()
+        f = call(lambda: c.count_words_of_length(k))
+        if a != f:
+            bad.append(f"after the history, {label}count_words_of_length({k}) = {a}, fresh copy: {f}")
+    for k in range(len(inst._word_cache)):
+        a = call(lambda: list(inst.words_of_length(k)))
+        c = fresh()
+        f = call(lambda: list(c.words_of_length(k)))
+        if a != f:
+            bad.append(f"after the history, {label}words_of_length({k}) = {str(a)[:120]}, fresh copy: {str(f)[:120]}")
+
+
+def describe_multi(refs, steps, mode: str):
+    return dict(kind="multi", automata=[repr(r) for r in refs], mode=mode, steps=[dict(s) for s in steps])
+
+
+@case_guard
+def run_multi_history(ctx: Ctx, refs, steps, origin: str, mode: str = "frozen", fresh_memo: dict = None):
+    """A history over 2–3 LIVE objects d0, d1, (d2): every object answers its own cache-populating queries (the
+    single-object repertoire of `Runner`), interleaved with binary comparisons and binary operations BETWEEN the live
+    objects (`BIN`: operands `on` and `arg`, possibly the same object).  Oracle: the same call on FRESH COPIES of the
+    operand(s); at the end every populated cache level of every object, and ==, != , <= of every ordered pair, are
+    asked once more.  Model: the projection of the history on each object is replayed by the Lean machine `step`
+    (binary calls are opaque there) and the non-opaque answers are compared."""
+    with Q3.mutable_option(mode):
+        return _run_multi_history(ctx, refs, steps, origin, mode, {} if fresh_memo is None else fresh_memo)
+
+
+def _run_multi_history(ctx: Ctx, refs, steps, origin: str, mode: str, fresh_memo: dict):
+    global HANGS
+    keep = []
+    fresh = lambda i: refs[i].copy() if mode == "frozen" else Q3.build_live(refs[i], mode, keep)      # noqa: E731
+    live = [fresh(i) for i in range(len(refs))]
+    runners = [Runner(x, None) for x in live]
+    bad, real = [], []
+    touching, nbin = 0, 0
+    done = steps
+
+    def binary(x, y, op):
+        return S.guarded(lambda: do_other(x, op, y))
+
+    def fresh_binary(s):
+        # what fresh copies of the operands answer does not depend on the history: asked once per (operands, call)
+        k = (s["on"], s["op"], s["arg"])
+        if k not in fresh_memo:
+            fx = fresh(s["on"])
+            fy = fx if s["arg"] == s["on"] else fresh(s["arg"])
+            fresh_memo[k] = binary(fx, fy, s["op"])
+        return fresh_memo[k]
+
+    for i, s in enumerate(steps):
+        if s["q"] == "BIN":
+            a = binary(live[s["on"]], live[s["arg"]], s["op"])
+            f = fresh_binary(s)
+            nbin += 1
+            ctx.stat(f"multi_bin:{s['op']}")
+            if s["on"] == s["arg"]:
+                ctx.stat("multi_bin:object_with_itself")
+        else:
+            R = runners[s["on"]]
+            a = R.run(s)
+            f = fresh_answer(refs[s["on"]], None, s, R.kinds, R.nexts, mode)
+            ctx.stat(f"multi_q:{s['q']}")
+            if s["q"] not in ("A", "WO", "IO", "SO"):
+                touching += 1
+        ctx.case(None)
+        real.append(a)
+        if f is not None and f != a:
+            bad.append((i + 1, f"call #{i} {show_step(s)} after {i} earlier calls on {len(refs)} live objects answered "
+                               f"{str(a)[:120]}; the same call on fresh copies of the operands answers {str(f)[:120]}"))
+        if a == ("err", "_Timeout"):
+            HANGS += 1
+            ctx.stat("history_ended_by_a_call_that_did_not_return")
+            done = steps[: i + 1]
+            break
+    hung = len(done) < len(steps) or (real and real[-1] == ("err", "_Timeout"))
+    tail = []
+    if not hung:
+        for i, x in enumerate(live):
+            swept = []
+            sweep_caches(x, lambda i=i: fresh(i), f"d{i}.", swept)
+            bad.extend((len(done), b) for b in swept)
+        for i in range(len(live)):
+            for j in range(len(live)):
+                for op in (("eq", "le") if i != j else ()):
+                    s = dict(q="BIN", on=i, op=op, arg=j)
+                    a, f = binary(live[i], live[j], op), fresh_binary(s)
+                    ctx.case(None)
+                    if a != f and not tail:
+                        tail.append(s)      # one more call of the history: the replay carries it as its last step
+                        bad.append((len(done) + 1, f"call #{len(done)} {show_step(s)} after {len(done)} earlier calls on {len(refs)} live "
+                                                   f"objects answered {a}; the same call on fresh copies of the operands answers {f}"))
+        if mode != "frozen":
+            for i, x in enumerate(live):
+                if Q3.definition_of(x) != Q3.definition_of(refs[i]):
+                    ctx.stat("multi:definition_changed_under_the_mutable_option")      # C18's clause; here only counted
+    nonempty = any(r.final_states for r in refs)
+    key = (tuple(repr(r) for r in refs), mode, json.dumps(done, sort_keys=True, default=str))
+    ctx.case(key if (touching >= 2 and nbin >= 1 and nonempty) else None)
+    ctx.stat(f"multi_origin:{origin}")
+    ctx.stat(f"multi_objects:{len(refs)}")
+    ctx.stat(f"multi_live_mode:{mode}")
+    if ctx.stats.get(f"multi_origin:{origin}", 0) % 300 == 1:
+        ctx.sample(dict(describe_multi(refs, done[:8], mode), answers=[str(a)[:60] for a in real[:8]]))
+    for upto, b in bad:
+        ctx.prop_fail(b, dict(describe_multi(refs, (list(done) + tail)[:upto], mode), what=b), None)
+    if hung or bad:
+        return
+    # ---- model: the projection on each object
+    for i, r in enumerate(refs):
+        proj = [(k, s) for k, s in enumerate(done) if s["on"] == i]
+        hist = [dict(q="OT", op="eq") if s["q"] == "BIN" else s for _, s in proj]
+        if not any(q["q"] != "OT" for q in hist):
+            continue
+        enc, st, sy = enc_dfa(r)
+        mod = model_history(ctx, enc, sy, hist)
+        for (k, s), m in zip(proj, mod):
+            if not m["same"]:
+                ctx.corr_diff("MULTI step≠stepPure (model theorem violated at run time)", describe_multi(refs, done[: k + 1], mode), real[k], m)
+            if m["ans"] in (("fuel",), ("opaque",)):
+                continue
+            if m["ans"] != real[k]:
+                ctx.corr_diff("MULTI answer", dict(describe_multi(refs, done[: k + 1], mode), index=k), real[k], m["ans"])
+
+
+def interleave(rng, refs, per_object_len: int, pbin: float = 0.3):
+    """Per-object random histories (own handles, own correlated chains), interleaved in a random order that keeps the
+    order within each object, with binary calls between the live objects in between and at the end."""
+    hists = []
+    for r in refs:
+        h, _ = rand_history(rng, r, per_object_len)
+        hists.append([q for q in h if q["q"] != "OT"])
+    pos = [0] * len(refs)
+    steps = []
+
+    def some_binary():
+        i = rng.randrange(len(refs))
+        j = i if rng.random() < 0.1 else rng.choice([k for k in range(len(refs)) if k != i])
+        op = rng.choice(BIN_CMP) if rng.random() < 0.75 else rng.choice(BIN_BUILD)
+        return dict(q="BIN", on=i, op=op, arg=j)
+
+    while any(pos[i] < len(hists[i]) for i in range(len(refs))):
+        if steps and rng.random() < pbin:
+            steps.append(some_binary())
+            continue
+        i = rng.choice([i for i in range(len(refs)) if pos[i] < len(hists[i])])
+        # a burst on one object (a caller fills one object's caches, then turns to the other)
+        for _ in range(rng.choice([1, 1, 2, 3])):
+            if pos[i] < len(hists[i]):
+                steps.append(dict(hists[i][pos[i]], on=i))
+                pos[i] += 1
+    for _ in range(rng.randint(1, 3)):
+        steps.append(some_binary())
+    return steps
+
+
+def rand_refs(rng, max_states: int = 5):
+    d, kind = L.shaped_dfa(rng, max_states)
+    if not d.input_symbols:
+        d, kind = DFA.from_finite_language({"a", "b"}, {"ab", "b"}), "finite_language"
+    refs, kinds = [d], [kind]
+    for _ in range(rng.choice([1, 1, 1, 2])):
+        try:
+            e, how = L4.related_partner(rng, rng.choice(refs))
+        except Exception:  # noqa: BLE001
+            e, how = d.copy(), "copy"
+        if len(e.states) > 16:
+            e, how = d.copy(), "copy"
+        refs.append(e)
+        kinds.append(how)
+    return refs, kinds
+
+
+# populating call groups of the bounded-exhaustive part of the multi-object family ("—" = the object stays fresh)
+MULTI_MACROS = [
+    [], [dict(q="C", k=0)], [dict(q="C", k=1)], [dict(q="C", k=3)], [dict(q="WO", k=1), "NX", "NX", "NX"],
+    [dict(q="IO"), "NX", "NX"], [dict(q="CARD")], [dict(q="LEN")], [dict(q="MAX")], [dict(q="RW", k=2, seed=7)],
+    [dict(q="C", k=2), dict(q="CLR")], [dict(q="C", k=2), dict(q="CLR"), dict(q="C", k=0)],
+    [dict(q="FI", p=dict(start="a", strict=True, key={"a": 0, "b": 1}, reverse=False, min=0, max=4, n=1))],
+    [dict(q="GO", op="minify")],
+]
+
+
+def multi_pairs():
+    ab = {"a", "b"}
+    fin = DFA.from_finite_language(ab, {"ab", "b"})
+    fin2 = DFA.from_finite_language(ab, {"ab", "b", "ba"})
+    sub = DFA.from_substring(ab, "aa")           # the non-final initial state has an incoming transition
+    suf = DFA.from_suffix(ab, "ba")
+    hand = DFA(states={0, 1, 2, 3}, input_symbols=ab, transitions={0: {"a": 1, "b": 2}, 1: {"a": 3}, 2: {"a": 2, "b": 2}, 3: {}},
+               initial_state=0, final_states={1, 3}, allow_partial=True)
+    uni = DFA.universal_language(ab)
+    return [(fin, fin.copy()), (fin, fin.to_partial()), (fin, fin2), (sub, sub.copy()), (sub, L4._relabel(random.Random(1), sub)),
+            (suf, suf.union(suf, minify=False)), (hand, hand.to_complete()), (uni, uni.minify())]
+
+
+def multi_exhaustive(ctx: Ctx, depth3: bool):
+    cmps = [dict(q="BIN", on=0, op=op, arg=1) for op in BIN_CMP] + [dict(q="BIN", on=1, op=op, arg=0) for op in ("eq", "ne", "lt")]
+    n = 0
+    for d0, d1 in multi_pairs():
+        memo = {}
+        shapes = [L.language_shape(d0), L.language_shape(d1)]
+
+        def ok(m, i):
+            return all(q == "NX" or q["q"] not in ("SU", "FI", "SO") or S.in_domain((d0, d1)[i], q["p"], shapes[i]) for q in m)
+        for m0 in MULTI_MACROS:
+            for m1 in MULTI_MACROS:
+                if not (ok(m0, 0) and ok(m1, 1)) or HANGS >= MAX_HANGS:
+                    continue
+                thirds = [MULTI_MACROS[i] for i in (1, 3, 5, 6)] if depth3 else [None]
+                for m2 in thirds:
+                    steps = [dict(q, on=0) for q in expand_macros([m0])] + [dict(q, on=1) for q in expand_macros([m1])]
+                    if m2 is not None:
+                        # a third group, on the first object again (its handles continue the numbering of the first group)
+                        both = expand_macros([m0, m2])
+                        steps += [dict(q, on=0) for q in both[len(expand_macros([m0])):]]
+                    run_multi_history(ctx, [d0, d1], steps + [dict(c) for c in cmps], "exhaustive", "frozen", memo)
+                    n += 1
+    ctx.exhaustive(f"multi-object histories: all pairs{' (thorough: + a third group on the first object)' if depth3 else ''} of "
+                   f"{len(MULTI_MACROS)} cache-populating call groups (none, count 0/1/3, words 1 three steps, iter two "
+                   "steps, cardinality, len, max, random_word, count+clear_cache, count+clear_cache+count 0, successor, minify), "
+                   f"the first on d0, the second on d1, followed by all {len(BIN_CMP)} comparisons d0·d1 and ==, !=, < d1·d0, on "
+                   f"{len(multi_pairs())} fixed pairs of DFAs over {{a,b}} (equal languages through different graphs, sub-/superset, unrelated)")
+
+
+def multi_corpus():
+    ab = {"a", "b"}
+    fin = DFA.from_finite_language(ab, {"ab", "b"})
+    u = lambda i, **q: dict(q, on=i)      # noqa: E731
+    b = lambda i, op, j: dict(q="BIN", on=i, op=op, arg=j)      # noqa: E731
+    # both operands have counted, one of them looked its (non-final) initial state up at length 0 (seed C20_w4m2)
+    yield [fin, fin.copy()], [u(0, q="LEN"), u(1, q="C", k=0), b(0, "eq", 1), b(1, "eq", 0), b(0, "ne", 1), b(0, "lt", 1), b(0, "le", 1)]
+    yield [fin, fin.minify(), fin.copy()], [u(0, q="CARD"), u(1, q="C", k=2), u(2, q="RW", k=2, seed=5), b(0, "eq", 1), b(1, "eq", 2),
+                                            b(2, "ge", 0), b(0, "union", 1), b(2, "eq", 2), u(2, q="CLR"), b(2, "eq", 0), b(0, "gt", 2)]
+    sub = DFA.from_substring(ab, "aa")
+    yield [sub, sub.copy()], [u(0, q="C", k=3), u(1, q="C", k=0), b(0, "eq", 1), u(1, q="C", k=3), u(0, q="CLR"), u(0, q="C", k=1),
+                              b(1, "eq", 0), b(0, "issubset", 1), b(0, "symmetric_difference", 1), b(0, "isdisjoint", 1)]
+    # generators of both objects alive across comparisons and a clear_cache of the other object
+    yield [sub, sub.minify()], [u(0, q="IO"), u(1, q="WO", k=3), u(0, q="NX", h=0), u(1, q="NX", h=0), b(0, "eq", 1), u(1, q="CLR"),
+                                u(0, q="NX", h=0), u(1, q="NX", h=0), b(1, "le", 0), u(0, q="NX", h=0), u(1, q="NX", h=0), b(0, "op_xor", 1)]
+
+
+def run_multi(ctx: Ctx):
+    rng = ctx.rng
+    for refs, steps in multi_corpus():
+        for mode in Q3.LIVE_MODES:
+            run_multi_history(ctx, refs, steps, "corpus", mode)
+    multi_exhaustive(ctx, ctx.thorough())
+    for _ in range(ctx.budget(260, 5000)):
+        if HANGS >= MAX_HANGS:
+            break
+        refs, kinds = rand_refs(rng)
+        for k in kinds[1:]:
+            ctx.stat(f"multi_partner:{k}")
+        mode = "frozen" if rng.random() < 0.6 else rng.choice(Q3.MUTABLE_MODES)
+        run_multi_history(ctx, refs, interleave(rng, refs, rng.choice([3, 6, 10])), "random", mode)
 
 
 # ------------------------------------------------------------------ history generators
@@ -728,12 +1063,28 @@ def nfa_corpus():
     yield n, other, [dict(q="EQ"), dict(q="A", w="ab"), dict(q="READ", w="aba"), dict(q="DET"), dict(q="A", w="ba"),
                      dict(q="ELIM", ws=["", "b", "ab", "ba"]), dict(q="READ", w="bb"), dict(q="A", w="ab"), dict(q="EQ")]
     yield n, n.copy(), [dict(q="READ", w=""), dict(q="VAL"), dict(q="A", w=""), dict(q="A", w="b#"), dict(q="EQ")]
+    # a lambda cycle of length 3 entered at different members by different first symbols, several reads in a row (seed C20_w4m3)
+    cyc = NFA(states={"S", "A", "B", "C", "F"}, input_symbols={"x", "y", "z", "a", "b", "c"},
+              transitions={"S": {"x": {"A"}, "y": {"B"}, "z": {"C"}}, "A": {"": {"B"}, "a": {"F"}}, "B": {"": {"C"}, "b": {"F"}},
+                           "C": {"": {"A"}, "c": {"F"}}, "F": {}}, initial_state="S", final_states={"F"})
+    yield cyc, cyc.copy(), [dict(q="A", w="xa"), dict(q="A", w="ya"), dict(q="A", w="za"), dict(q="READ", w="yc"), dict(q="A", w="zb"),
+                            dict(q="EQ"), dict(q="DET"), dict(q="ELIM", ws=["xa", "ya", "zb", "xc"]), dict(q="OA", w="zc"), dict(q="QE")]
+    yield cyc, cyc.eliminate_lambda(), [dict(q="READ", w="zb"), dict(q="READ", w="xc"), dict(q="A", w="yb"), dict(q="QE"), dict(q="A", w="ya"),
+                                        dict(q="OA", w="ya"), dict(q="EQ")]
+    # two simultaneously active states move on the same symbol (an accumulator aliased to a target set: seed C20_w4m1)
+    par = NFA(states={0, 1, 2, 3}, input_symbols={"a", "b"},
+              transitions={0: {"a": {0, 1}, "b": {0}}, 1: {"a": {2}, "b": {3}}, 2: {"a": {2}, "b": {1}}, 3: {}},
+              initial_state=0, final_states={3})
+    yield par, par.copy(), [dict(q="A", w="aab"), dict(q="A", w="ab"), dict(q="A", w="b"), dict(q="READ", w="abb"), dict(q="EQ"),
+                            dict(q="DET"), dict(q="OA", w="aab"), dict(q="OA", w="bb"), dict(q="QE"), dict(q="A", w="bb")]
 
 
 def run(ctx: Ctx):
     rng = ctx.rng
-    for d, hist in corpus():
+    for i, (d, hist) in enumerate(corpus()):
         run_history(ctx, d, d.copy(), hist, "corpus", kmax_for(d))
+        # round 4: the same history on an object built under allow_mutable_automata=True (plain / aliased containers)
+        run_history(ctx, d, d.copy(), [dict(q) for q in hist], "corpus", kmax_for(d), Q3.MUTABLE_MODES[i % 3])
     # ---- bounded-exhaustive: all macro histories of length ≤ L on 20 DFAs
     Lmax = 3 if ctx.thorough() else 2
     dfas = twenty_dfas()
@@ -764,11 +1115,18 @@ def run(ctx: Ctx):
             continue
         ctx.stat(f"kind:{kind}")
         hist, kmax = rand_history(rng, d, rng.choice([5, 10, 20, 30, 30]))
-        run_history(ctx, d, other_for(rng, d), hist, "random", kmax)
+        mode = "frozen" if rng.random() < 0.75 else rng.choice(Q3.MUTABLE_MODES)
+        run_history(ctx, d, other_for(rng, d), hist, "random", kmax, mode)
+    # ---- round 4: histories over two / three live objects, binary calls between them; mutable-option modes
+    t0 = time.time()
+    run_multi(ctx)
+    ctx.note(f"multi-object family: {time.time() - t0:.1f}s")
     # ---- NFA side (lambda-closure memo): fresh-copy oracle + NHISTORY correspondence
     for n, other, hist in nfa_corpus():
-        run_nfa_history(ctx, n, other, hist, "corpus")
-    for _ in range(ctx.budget(300, 6000)):
+        for mode in Q3.LIVE_MODES:
+            run_nfa_history(ctx, n, other, hist, "corpus", mode)
+    nfa_cycle_exhaustive(ctx, ctx.thorough())
+    for _ in range(ctx.budget(400, 7000)):
         nfa_history(ctx, rng)
 
 
@@ -801,6 +1159,10 @@ def nfa_answer(n, other, q, st=None):
         return ("ok", nfa_read(n, q["w"], st))
     if k == "VAL":
         return call(lambda: n.validate())
+    if k == "OA":       # a query answered by the OTHER live object (it has a history of its own)
+        return call(lambda: other.accepts_input(q["w"]))
+    if k == "QE":       # the comparison asked from the other side
+        return call(lambda: other == n)
     raise InfraError(f"unknown NFA query {q}")
 
 
@@ -823,6 +1185,8 @@ def enc_nquery(sy, q):
         return toks("RD", enc_word(sy, q["w"]))
     if k in NFA_VIA:
         return toks("VC", NFA_VIA.index(k))
+    if k == "QE":
+        return toks("VC", 0)
     return toks("OT", 0)
 
 
@@ -842,61 +1206,115 @@ def parse_nanswer(text: str):
     raise InfraError(f"cannot parse NFA model answer {text!r}")
 
 
-def rand_nfa_history(rng, n):
+def rand_nfa_history(rng, n, other=None, pool=None):
+    """`pool`: words worth asking about on this NFA (for lambda-cycle NFAs: the words that enter the cycle at its
+    different members); reads come in bursts of 1–4 in a row."""
     sy = sorted(n.input_symbols)
+    osy = sorted(other.input_symbols) if other is not None else sy
     hist = []
-    for _ in range(rng.choice([4, 8, 12])):
-        r = rng.random()
-        w = gen.rand_word(rng, sy, 6)
+
+    def word(limit=6):
+        if pool and rng.random() < 0.75:
+            w = rng.choice(pool)
+            return w + (gen.rand_word(rng, sy, 2) if rng.random() < 0.25 else "")
+        w = gen.rand_word(rng, sy, limit)
         if rng.random() < 0.05:
             w += gen.foreign_symbol(n.input_symbols)
-        if r < 0.45:
-            hist.append(dict(q="A", w=w))
-        elif r < 0.65:
-            hist.append(dict(q="READ", w=w[:5]))
-        elif r < 0.77:
+        return w
+
+    for _ in range(rng.choice([4, 8, 12])):
+        r = rng.random()
+        if r < 0.40:
+            for _ in range(rng.choice([1, 1, 2, 3, 4]) if pool else 1):
+                hist.append(dict(q="A", w=word()))
+        elif r < 0.58:
+            for _ in range(rng.choice([1, 2]) if pool else 1):
+                hist.append(dict(q="READ", w=word(5)[:5]))
+        elif r < 0.68:
             hist.append(dict(q="EQ"))
-        elif r < 0.86:
+        elif r < 0.72:
+            hist.append(dict(q="QE"))
+        elif r < 0.80:
+            hist.append(dict(q="OA", w=gen.rand_word(rng, osy, 5)))
+        elif r < 0.88:
             hist.append(dict(q="DET"))
-        elif r < 0.95:
-            hist.append(dict(q="ELIM", ws=[gen.rand_word(rng, sy, 5) for _ in range(4)]))
+        elif r < 0.96:
+            hist.append(dict(q="ELIM", ws=[word(5) for _ in range(4)]))
         else:
             hist.append(dict(q="VAL"))
     return hist
 
 
+def nfa_sweep_words(n):
+    """≤ 16 short words, chosen by the definition alone (all words of length ≤ 2, thinned out evenly)."""
+    ws = list(gen.words_upto(sorted(n.input_symbols), 2))
+    step = -(-len(ws) // 16)
+    return ws[::step] if step > 1 else ws
+
+
 @case_guard
-def run_nfa_history(ctx: Ctx, n, other, hist, origin: str):
+def run_nfa_history(ctx: Ctx, n, other, hist, origin: str, mode: str = "frozen"):
     """The NFA half of the property (cached lambda closures): every answer on a long-lived NFA must
     equal the answer on a fresh copy (property, independent of the model) and the answer of the
     Lean instance machine `nstep` (NHISTORY); the memoised closure table of the real object must
-    stay equal to a fresh one."""
-    from automata.fa.nfa import NFA
+    stay equal to a fresh one.  Round 4: `other` is a second LIVE object (queries `OA` are answered by it, `EQ` / `QE`
+    compare the two live objects; the fresh answer uses fresh copies of both); `mode`: both live objects — and every
+    fresh copy — are built by c20_lib4.build_live_nfa (default frozen copy, or under allow_mutable_automata=True from
+    a deep copy of the constructor arguments: plain / aliased containers, copy of such an object), `n` / `other` are
+    the frozen twins; after the history acceptance of every short word is asked once more."""
+    with Q3.mutable_option(mode):
+        return _run_nfa_history(ctx, n, other, hist, origin, mode)
+
+
+def _run_nfa_history(ctx: Ctx, n, other, hist, origin: str, mode: str):
     enc, st, sy = enc_nfa(n)
-    inst = n.copy()
+    keep = []
+    inst = L4.build_live_nfa(n, mode, keep)
+    other_live = L4.build_live_nfa(other, mode, keep)
     real, memos, bad = [], [], []
     fresh_table = None
+    rp = lambda h, what: dict(dict(kind="nfa", automaton=repr(n), other=repr(other), history=h, what=what),      # noqa: E731
+                              **({} if mode == "frozen" else {"mode": mode}))
     for i, q in enumerate(hist):
-        a = nfa_answer(inst, other, q, st)
-        f = nfa_answer(n.copy(), other, q, st)
+        a = nfa_answer(inst, other_live, q, st)
+        f = nfa_answer(L4.build_live_nfa(n, mode, keep), L4.build_live_nfa(other, mode, keep), q, st)
         real.append(a)
         memos.append(nfa_memo(inst))
         ctx.case(None)
         ctx.stat(f"nfa_q:{q['q']}")
         if a != f:
-            bad.append((i, f"NFA call #{i} {q} after {i} earlier calls answered {str(a)[:120]}; "
-                           f"a fresh copy answers {str(f)[:120]}"))
+            bad.append((i + 1, f"NFA call #{i} {q} after {i} earlier calls answered {str(a)[:120]}; "
+                               f"a fresh copy answers {str(f)[:120]}"))
         if memos[-1]:
             if fresh_table is None:
-                c = n.copy()          # keep the receiver referenced (cached_method holds it weakly)
-                fresh_table = dict(c._get_lambda_closures())
-            if dict(inst._get_lambda_closures()) != fresh_table:
-                ctx.corr_diff("NHISTORY closure memo content", dict(automaton=repr(n), history=hist[: i + 1]),
+                c = L4.build_live_nfa(n, mode, keep)          # keep the receiver referenced (cached_method holds it weakly)
+                fresh_table = {k: frozenset(v) for k, v in dict(c._get_lambda_closures()).items()}
+            if {k: frozenset(v) for k, v in dict(inst._get_lambda_closures()).items()} != fresh_table:
+                ctx.corr_diff("NHISTORY closure memo content", dict(automaton=repr(n), history=hist[: i + 1], mode=mode),
                               repr(dict(inst._get_lambda_closures()))[:300], repr(fresh_table)[:300])
-    ctx.case((enc, json.dumps(hist, sort_keys=True)) if len(hist) >= 2 and n.final_states else None)
+    # final sweep: acceptance of every short word, long-lived object (and the other live object) against fresh copies
+    extra = []
+    if hist:
+        for x, ref, kind in ((inst, n, "A"), (other_live, other, "OA")):
+            for w in nfa_sweep_words(ref):
+                c = L4.build_live_nfa(ref, mode, keep)      # a fresh copy per question
+                a, f = call(lambda: x.accepts_input(w)), call(lambda: c.accepts_input(w))
+                ctx.case(None)
+                if a != f:
+                    # the sweep question is one more call of the history: the replay carries it as its last call
+                    extra.append(dict(q=kind, w=w))
+                    bad.append((len(hist) + 1, f"NFA call #{len(hist)} {extra[0]} after {len(hist)} earlier calls answered {a}; "
+                                               f"a fresh copy answers {f}"))
+                    break
+            if extra:
+                break
+        if mode != "frozen" and L4.nfa_definition_of(inst) != L4.nfa_definition_of(n):
+            ctx.stat("nfa:definition_changed_under_the_mutable_option")      # C18's clause; here only counted
+    ctx.case((enc, mode, json.dumps(hist, sort_keys=True)) if len(hist) >= 2 and n.final_states else None)
     ctx.stat(f"nfa_origin:{origin}")
-    for i, what in bad:
-        ctx.prop_fail(what, dict(kind="nfa", automaton=repr(n), other=repr(other), history=hist[: i + 1], what=what), None)
+    ctx.stat(f"nfa_live_mode:{mode}")
+    for upto, what in bad:
+        ctx.prop_fail(what, rp((hist + extra)[:upto], what), None)
     line = ctx.driver(L.DRV).ask(toks("NHISTORY", enc, len(hist), [enc_nquery(sy, q) for q in hist]))
     for i, (q, a, mm, part) in enumerate(zip(hist, real, memos, line.split(" | ") if hist else [])):
         ans, memo, same = part.split(" ; ")
@@ -904,15 +1322,45 @@ def run_nfa_history(ctx: Ctx, n, other, hist, origin: str):
         if same.strip() != "1":
             ctx.corr_diff("NHISTORY nstep≠nstepPure (model theorem violated at run time)", dict(automaton=repr(n), history=hist[: i + 1]), a, ans)
         if m != ("opaque",) and m != a and not bad:
-            ctx.corr_diff("NHISTORY answer", dict(automaton=repr(n), history=hist[: i + 1], index=i), a, m)
+            ctx.corr_diff("NHISTORY answer", dict(automaton=repr(n), history=hist[: i + 1], index=i, mode=mode), a, m)
         ctx.stat("nfa_snapshot:memo_flag_equal" if int(memo) == mm else "nfa_snapshot:memo_flag_differs_from_model")
 
 
 def nfa_history(ctx: Ctx, rng):
-    n = gen.rand_nfa(rng, 5)
+    r = rng.random()
+    pool = None
+    if r < 0.3:
+        n, kind = L4.lambda_cycle_nfa(rng), "lambda_cycle_3_to_5"
+        pool = L4.cycle_words(n)
+    elif r < 0.4:
+        n, kind = gen.rand_nfa(rng, 6, eps=0.8, min_states=4), "lambda_dense"
+    else:
+        n, kind = gen.rand_nfa(rng, 5), "rand"
     sy = sorted(n.input_symbols)
-    other = rng.choice([n.copy(), gen.rand_nfa(rng, 4, alphabet=sy)])
-    run_nfa_history(ctx, n, other, rand_nfa_history(rng, n), "random")
+    r = rng.random()
+    other = n.copy() if r < 0.4 else gen.rand_nfa(rng, 4, alphabet=sy) if r < 0.8 else n.eliminate_lambda()
+    mode = "frozen" if rng.random() < 0.55 else rng.choice(Q3.MUTABLE_MODES)
+    ctx.stat(f"nfa_kind:{kind}")
+    run_nfa_history(ctx, n, other, rand_nfa_history(rng, n, other, pool), "random", mode)
+
+
+def nfa_cycle_exhaustive(ctx: Ctx, depth3: bool):
+    """Fixed NFAs with one lambda cycle of length 3, 4, 5 (every member is an entry point with its own first symbol;
+    one or two members carry the exit to the final state): all ordered pairs (thorough: triples) of the words
+    `entry symbol + exit symbol`, each asked with accepts_input on ONE object."""
+    count = 0
+    for length in (3, 4, 5):
+        for seed in range(3):
+            n = L4.lambda_cycle_nfa(random.Random(100 * length + seed), length, decorate=False)
+            exits = sorted(a for a in n.input_symbols if a in "ab")
+            words = [e + x for e in sorted(n.transitions["S"]) for x in exits]
+            if len(words) > 6:
+                words = [w for w in words if w[1] == exits[0]] + [w for w in words if w[1] != exits[0]][:1]
+            for ws in itertools.product(words, repeat=3 if depth3 else 2):
+                run_nfa_history(ctx, n, n, [dict(q="A", w=w) for w in ws], "exhaustive_lambda_cycle")
+                count += 1
+    ctx.exhaustive(f"NFA: all ordered {'triples' if depth3 else 'pairs'} of accepts_input(entry symbol + exit symbol) on 9 fixed NFAs with a "
+                   f"lambda cycle of length 3 / 4 / 5 entered at every member by its own symbol ({count} histories)")
 
 
 def replay(ctx: Ctx, path: str) -> int:
@@ -920,12 +1368,12 @@ def replay(ctx: Ctx, path: str) -> int:
     rp = data.get("replay", data)
     from automata.fa.nfa import NFA
     env = {"DFA": DFA, "NFA": NFA, "frozenset": frozenset}
-    d = eval(rp["automaton"], env)
-    other = eval(rp["other"], env)
-    if rp.get("kind") == "nfa":
-        run_nfa_history(ctx, d, other, rp["history"], "replay")
+    if rp.get("kind") == "multi":
+        run_multi_history(ctx, [eval(a, env) for a in rp["automata"]], rp["steps"], "replay", rp.get("mode", "frozen"))
+    elif rp.get("kind") == "nfa":
+        run_nfa_history(ctx, eval(rp["automaton"], env), eval(rp["other"], env), rp["history"], "replay", rp.get("mode", "frozen"))
     else:
-        run_history(ctx, d, other, rp["history"], "replay", 8)
+        run_history(ctx, eval(rp["automaton"], env), eval(rp["other"], env), rp["history"], "replay", 8, rp.get("mode", "frozen"))
     if ctx.prop_fails:
         print(f"VIOLATION property=C20 replay={path}")
         print("  " + ctx.prop_fails[0]["what"])
